@@ -95,7 +95,8 @@ def main():
 
     where = executor.init(src)
     hello = {"hello": True, "hashseed": os.environ.get("PYTHONHASHSEED"),
-             "canary": executor.hash_canary(), "src": where, "pid": os.getpid()}
+             "canary": executor.hash_canary(), "src": where, "pid": os.getpid(),
+             "scratch": executor.process_scratch()}
     sys.stdout.write(json.dumps(hello) + "\n")
     sys.stdout.flush()
     n = 0
@@ -134,7 +135,7 @@ def main():
 
         from sim import fsseam
 
-        shutil.rmtree(os.path.join(fsseam.scratch_base(), f"PVS{os.getpid()}"), ignore_errors=True)
+        shutil.rmtree(executor.process_scratch(), ignore_errors=True)
     except OSError:
         pass
 
